@@ -117,6 +117,8 @@ func main() {
 				}()
 			}
 			fmt.Printf("%s\t%d\t%s\n", pf, len(fired), strings.Join(fired, " "))
+			core.ForgetProgram(prog)
+			core.ResetCaches()
 		}
 		os.Exit(code)
 	case "lockleaks":
